@@ -62,7 +62,14 @@ def _run(binary, args, timeout=300, prop=None):
     env = dict(os.environ)
     if prop:
         env["VERIF_PROP"] = prop
-    p = subprocess.run([binary] + args, stdout=subprocess.PIPE, stderr=subprocess.PIPE, text=True, timeout=timeout, env=env)
+    try:
+        p = subprocess.run([binary] + args, stdout=subprocess.PIPE, stderr=subprocess.PIPE, text=True, timeout=timeout, env=env)
+    except subprocess.TimeoutExpired as e:
+        # a scenario that does not finish is reported as what it is; the caller decides whether that contradicts the property
+        out = (e.stdout or b"").decode(errors="replace") if isinstance(e.stdout, bytes) else (e.stdout or "")
+        line = json.dumps({"found": True, "kind": "hang", "props": "C01,C04,C20,C10,C16", "history": " ".join(args),
+                           "observed": "the scenario `%s` did not finish within %d s" % (" ".join(args), timeout), "expected": "it finishes (normally within seconds)"})
+        return subprocess.CompletedProcess([binary] + args, 0, out + "\n" + line + "\n", "timeout")
     return p
 
 
